@@ -13,6 +13,9 @@ var Checks = map[string]vk.Check{
 	"C04": C04,
 	"C10": C10,
 	"C12": C12,
+	"C03": C03,
+	"C02": C02,
+	"C09": C09,
 }
 
 // TestWorker is the entry point of the worker binary (`go test -c`): synctest needs a
